@@ -164,12 +164,33 @@ def corpus():
     a, b, c = list(e), list(e), list(e)
     a[0], b[0], c[5] = 1e-3, 1e3, 1.0
     cs.append({"kind": "dist", "v": [a, b, c], "zmask": [[], [], []], "rel": ["proportional", "disjoint"]})
+    x = [float(2 ** 24)] + [1.0] * 1000
+    cs.append({"kind": "dense32", "x": x, "y": [3 * v for v in x], "rel": "proportional"})
     return cs
+
+
+def _dense32_case(rng):
+    """dense float32 arguments: long vectors, one entry that dwarfs the rest, proportional partner"""
+    d = rng.choice([3, 40, 300, 1001, 1500])
+    x = [float(rng.choice([0, 1, 1, 2, 3])) for _ in range(d)]
+    if rng.random() < 0.6:
+        x[rng.randrange(d)] = float(2 ** rng.choice([20, 24, 26]))
+    if not any(x):
+        x[0] = 1.0
+    rel = rng.choice(["proportional", "proportional", "independent"])
+    if rel == "proportional":
+        k = rng.choice([3.0, 0.5, 7.0, 2.0])
+        y = [k * v for v in x]
+    else:
+        y = [float(rng.choice([0, 1, 2, 5])) for _ in range(d)]
+        y[0] = y[0] or 1.0
+    return {"kind": "dense32", "x": x, "y": y, "rel": rel}
 
 
 def generate(rng, tier):
     n_d, n_h = (400, 800) if tier == "quick" else (4000, 8000)
     cs = [_dist_case(rng) for _ in range(n_d)]
+    cs += [_dense32_case(rng) for _ in range(n_d // 10)]
     cs += [_helper_case(rng) for _ in range(n_h)]
     if tier == "thorough":
         cs += [_helper_case(rng, maxn=40, univ=80) for _ in range(1000)]
@@ -226,6 +247,36 @@ def run_impl(case):
         call("diff", lambda: D.sparse_diff(*args()), pair)
         call("mul", lambda: D.sparse_mul(*args()), pair)
         call("du", lambda: D.dense_union(*args()), lambda r: {"d1": [_f(v) for v in r[0]], "d2": [_f(v) for v in r[1]]})
+        # both operands are the same arrays (x - x, x + x, x * x), and no helper may write to its arguments
+        for which, (ki, kd) in (("1", (0, 1)), ("2", (2, 3))):
+            b = args()
+            ind, dat = b[ki], b[kd]
+            call("diff_self" + which, lambda: D.sparse_diff(ind, dat, ind, dat), pair)
+            call("sum_self" + which, lambda: D.sparse_sum(ind, dat, ind, dat), pair)
+            call("mul_self" + which, lambda: D.sparse_mul(ind, dat, ind, dat), pair)
+            out["self_unchanged" + which] = bool(np.array_equal(ind, a[ki]) and np.array_equal(dat, a[kd]))
+        b = args()
+        for f in (D.sparse_sum, D.sparse_diff, D.sparse_mul, D.dense_union):
+            try:
+                f(*b)
+            except Exception:
+                pass
+        out["args_unchanged"] = all(bool(np.array_equal(p, q)) for p, q in zip(a, b))
+        return out
+    if case["kind"] == "dense32":
+        fs = {"hellinger": D.hellinger, "tv": D.total_variation,
+              "kant1": lambda x, y: D.kantorovich1d(x, y, 1), "kant2": lambda x, y: D.kantorovich1d(x, y, 2),
+              "js": D.jensen_shannon_divergence, "skl": D.symmetric_kl_divergence}
+        x32, y32 = np.array(case["x"], dtype=np.float32), np.array(case["y"], dtype=np.float32)
+        out = {}
+        for name, f in fs.items():
+            r = []
+            for (p, q) in ((x32, y32), (y32, x32)):
+                try:
+                    r.append([_f(f(p.copy(), q.copy())), _f(f(p.astype(np.float64), q.astype(np.float64)))])
+                except Exception as e:
+                    r.append("exc:" + type(e).__name__)
+            out[name] = r
         return out
     vs = [np.array(v, dtype=np.float64) for v in case["v"]]
     dense = {
@@ -271,6 +322,8 @@ def _rat(f):
 
 
 def model_requests(case, outs):
+    if case["kind"] == "dense32":
+        return []
     if case["kind"] == "helpers":
         return [{"op": "dist.helpers", "ind1": case["ind1"], "data1": [str(v) for v in case["data1"]],
                  "ind2": case["ind2"], "data2": [str(v) for v in case["data2"]]}]
@@ -299,6 +352,8 @@ def _ratval(s):
 def compare(case, outs, resps):
     o = outs["normal"]
     d = []
+    if case["kind"] == "dense32":
+        return d
     if not resps:
         return ["no model response"]
     if "crash" in o:
@@ -391,7 +446,35 @@ def oracle(case, outs):
     if "crash" in o:
         return [_F("dist.crash", f"process terminated: {o['crash']}")]
     fails = []
+    if case["kind"] == "dense32":
+        for name, rs in o.items():
+            for k, r in enumerate(rs):
+                tag = f"{name}({'y, x' if k else 'x, y'}) on float32 arrays, d={len(case['x'])}, {case['rel']}"
+                if isinstance(r, str):
+                    fails.append(_F(f"dist.{name}.float32-raises", f"{tag}: {r}"))
+                    continue
+                a, b = r
+                if name == "hellinger" and _num(a) and _num(b):
+                    a, b = a * a, b * b
+                if _num(b) and not (_num(a) and abs(a - b) <= 1e-6 * max(1.0, abs(b))):
+                    fails.append(_F(f"dist.{name}.float32-dense", f"{tag}: {r[0]} but {r[1]} on the same values held in float64; x[:6]={case['x'][:6]}"))
+                if case["rel"] == "proportional" and name in ("tv", "kant1", "kant2", "js") and _num(r[0]) and abs(r[0]) > 1e-6:
+                    fails.append(_F(f"dist.{name}.proportional-nonzero", f"{tag}: {r[0]}"))
+        return fails
     if case["kind"] == "helpers":
+        for which, (ii, dd) in (("1", (case["ind1"], case["data1"])), ("2", (case["ind2"], case["data2"]))):
+            exp = {"diff_self": [0 for v in dd], "sum_self": [2 * v for v in dd], "mul_self": [v * v for v in dd]}
+            for k, vals in exp.items():
+                got = o.get(k + which)
+                want = {"ind": [i for i, v in zip(ii, vals) if v != 0], "data": [float(v) for v in vals if v != 0]}
+                if isinstance(got, dict) and "exc" not in got:
+                    gz = {"ind": [i for i, v in zip(got["ind"], got["data"]) if v != 0], "data": [v for v in got["data"] if v != 0]}
+                    if gz != want:
+                        fails.append(_F(f"dist.helpers.{k}", f"{k.replace('_self', '')}(x, x) with the same arrays as both operands = {got}, dense arithmetic gives {want}; x=({ii}, {dd})"))
+            if o.get("self_unchanged" + which) is False:
+                fails.append(_F("dist.helpers.argument-modified", f"a helper called with x as both operands changed x=({ii}, {dd})"))
+        if o.get("args_unchanged") is False:
+            fails.append(_F("dist.helpers.argument-modified", f"a sparse helper wrote to its arguments ({case['ind1']}, {case['data1']}), ({case['ind2']}, {case['data2']})"))
         i1, d1, i2, d2 = case["ind1"], case["data1"], case["ind2"], case["data2"]
         n = max(i1 + i2 + [0]) + 1
         a, b = _dense_helper(i1, d1, n), _dense_helper(i2, d2, n)
@@ -476,6 +559,8 @@ def oracle(case, outs):
 
 
 def nontrivial(case, outs):
+    if case["kind"] == "dense32":
+        return case["rel"] == "proportional" and len(case["x"]) > 100
     if case["kind"] == "helpers":
         i1, i2 = case["ind1"], case["ind2"]
         # the tail loop of the longer-running list writes an index different from its position
@@ -490,6 +575,8 @@ def nontrivial(case, outs):
 
 
 def stats(case, outs):
+    if case["kind"] == "dense32":
+        return ["dense32", "dense32." + case["rel"], f"dense32.d{'>1000' if len(case['x']) > 1000 else '<=1000'}"]
     if case["kind"] == "helpers":
         i1, i2 = set(case["ind1"]), set(case["ind2"])
         t = ["helpers", f"helpers.{case['dtype']}"]
@@ -520,6 +607,8 @@ def stats(case, outs):
 
 
 def shrink_candidates(case):
+    if case["kind"] == "dense32":
+        return
     if case["kind"] == "helpers":
         for side in ("1", "2"):
             ind, data = case["ind" + side], case["data" + side]
